@@ -564,6 +564,15 @@ pub fn run(ctx: &mut Ctx) {
             all.push(c.set("trials", trials * (65536 / dense_n) * 2).set("n_max", dense_n).set("dense", true));
         }
     }
+    // the merged CPC estimate against the definition of ICON for every lg_k 4..=14 (one natural coupon order per
+    // lg_k, ~250 coupon counts each): the coefficients of the library's approximation are per lg_k
+    for lg in 4..=14u64 {
+        if (lg as usize) % ctx.nshards == ctx.shard {
+            let case = Json::obj().set("lane", "icon").set("lg_k", lg).set("seed", ctx.case_seed("icon", lg));
+            super::c06::run_case(ctx, &case);
+            ctx.cover("icon_sweep_lg_k");
+        }
+    }
     // heaviest first, dealt round-robin, so that shards finish together
     all.sort_by_key(|c| std::cmp::Reverse(c.u64("trials").unwrap_or(0) * c.u64("n_max").unwrap_or(0)));
     let mut stats = vec![];
